@@ -182,6 +182,11 @@ func check(raw json.RawMessage, c *ccase, tc vlib.TConc, idx int) {
 	}
 	// through the CLI path: pprof -proto output re-read
 	if idx%5 == int(run.Seed)%5 && len(c.P.ST) > 0 && distinctTypes(c.P.ST) {
+		defer func() {
+			if r := recover(); r != nil {
+				run.Violate("driver", "panic:driver", fmt.Sprint(r), raw, nil)
+			}
+		}()
 		p := tc.Profile(c.P)
 		r := vdrv.Run(vdrv.Opts{Args: []string{"-proto", "-output=out", "src"}, Fetch: func(string) (*profile.Profile, error) { return p.Copy(), nil }})
 		if r.Err != nil || r.Panic != nil {
@@ -344,19 +349,29 @@ func randomDriver() {
 			continue
 		}
 		v := vs[it%len(vs)]
-		q, err := v.fn(p)
-		if err != nil {
-			run.Violate("random", "random-error:"+v.name, err.Error(), t, nil)
-			continue
-		}
-		q2, err := v.fn(q)
-		ev := rtEvent{Op: "roundtrip", N: it, In: t, Out: vlib.TableOf(q), Via: v.name}
-		if err == nil {
-			ev.Fix = vlib.ProjectFull(q2).Equal(vlib.ProjectFull(q))
-			ev.Bytes = bytes.Equal(rawBytes(q), rawBytes(q2))
-		}
-		run.Counter("random_roundtrips", 1)
-		run.Event(ev)
-		run.Aux(map[string]interface{}{"n": it, "p": t, "via": v.name})
+		func() {
+			defer func() {
+				if r := recover(); r != nil {
+					run.Violate("random", "panic:random:"+v.name, fmt.Sprint(r), t, nil)
+				}
+			}()
+			q, err := v.fn(p)
+			if err != nil {
+				run.Violate("random", "random-error:"+v.name, err.Error(), t, nil)
+				return
+			}
+			ev := rtEvent{Op: "roundtrip", N: it, In: t, Out: vlib.TableOf(q), Via: v.name}
+			func() {
+				defer func() { recover() }() // a crash of the second trip is recorded as fix = bytes = false
+				q2, err := v.fn(q)
+				if err == nil {
+					ev.Fix = vlib.ProjectFull(q2).Equal(vlib.ProjectFull(q))
+					ev.Bytes = bytes.Equal(rawBytes(q), rawBytes(q2))
+				}
+			}()
+			run.Counter("random_roundtrips", 1)
+			run.Event(ev)
+			run.Aux(map[string]interface{}{"n": it, "p": t, "via": v.name})
+		}()
 	}
 }
